@@ -46,16 +46,16 @@ def design_level(ctx):
 
 def implementation(ctx):
     # ---------------------------------------------------------------- 2. implementation -> specification
-    items, _ = ctx.tlc_gen("MC_PexGen", ctx.pick("MC_PexGen.cfg", "MC_PexGen_8.cfg"), simulate=ctx.pick(60, 600),
+    items, _ = ctx.tlc_gen("MC_PexGen", ctx.pick("MC_PexGen.cfg", "MC_PexGen_8.cfg"), simulate=ctx.pick(60, 1500),
                            depth=ctx.pick(45, 75), timeout=900)
-    if len(items) < ctx.pick(40, 400):
+    if len(items) < ctx.pick(40, 1000):
         raise vlib.MachineryError("MC_PexGen produced only %d histories" % len(items))
     sp = ctx.path("scripts.ndjson")
     vlib.write_ndjson(sp, items)
     ctx.extra["tlc_generated_histories"] = len(items)
     drv = ctx.build_go("x02")
     tp = ctx.path("trace.ndjson")
-    r = ctx.run_drv(drv, ["-seed", str(ctx.seed), "-scripts", sp, "-n", str(ctx.pick(40, 500)), "-big", str(ctx.pick(3, 30)), "-out", tp],
+    r = ctx.run_drv(drv, ["-seed", str(ctx.seed), "-scripts", sp, "-n", str(ctx.pick(40, 1500)), "-big", str(ctx.pick(3, 60)), "-out", tp],
                     check=False, timeout=1200)
     if r.returncode != 0:
         crash(ctx, r)
